@@ -42,7 +42,8 @@ CLAIMS = {
             "refit, every delegating member guarded with a method name and forwarding all arguments.", "3/C08"),
     "C12": ("No in-place write through a may-alias of caller data (flow-sensitive alias/freshness analysis with joins at merges and "
             "interprocedural 'mutates parameter k' summaries), components cloned before fitting, randomness only from "
-            "check_random_state(self.random_state), nothing unpicklable stored on self, parallel results consumed positionally. "
+            "check_random_state(self.random_state), nothing unpicklable stored on self, parallel results consumed positionally, "
+            "apply-type methods neither write in place into nor (transformers) rebind state that fit binds. "
             "Repeatability of values and pickle round trips are not decided.", "3/C12"),
     "C13": ("Series transformers: transform/inverse duality as symbolic normal forms against an inverse-pair table, index provenance of "
             "tagged classes, (phase reference, seasonal component) written together, alignment shift as a congruence mod sp, label-vs-position "
